@@ -14,9 +14,10 @@
      held across client.write (b236378), readLoop blocked in `client.in <- packet` (6670bb6),
      errOnce body blocked in client.write(DISCONNECT) (b002260); seen only by the stress harness:
      lockDuplicatedID's unlock/relock window (ae69d2a).
-   Open finding, carried by a `_refuted` + `_partial` pair:
-     kf_unregistered_survives     Stop neither closes nor waits for connections that have not
-                                  completed CONNECT *)
+     Stop ignored connections that had not registered (1d02d65).
+     a connection between Accept and addConnecting when Stop listed the connections survived (9fa9d46).
+   No open finding.  Honest remainder (Example C15_stop_does_not_wait_for_late_recorded): Stop does
+   not wait for the goroutines of a connection that addConnecting closes after Stop's locked block. *)
 From Coq Require Import List Arith Bool String Relations.
 Import ListNotations.
 From GM Require Import Gen.LockOrder Gen.StopOrder Model.LockOrder Model.ConnLife Model.StopLife
@@ -117,7 +118,7 @@ Print Assumptions C15_stop_terminates.
 (* the ORDER of the operations inside Stop, over Gen/StopOrder.v (the body of stopOnce.Do in source
    order, regenerated on every run): every operation occurs exactly once; exit(), the closing of
    all TCP listeners and the shutdown of all websocket servers precede the snapshot-and-Close of
-   srv.clients, which is taken under srv.mu; the wait is outside srv.mu; Unload and then OnStop come
+   srv.clients and of srv.connecting, which are taken under srv.mu; the wait is outside srv.mu; Unload and then OnStop come
    after the wait.  And the order is the one of the model: mapping the operations to the program
    counters of Model/StopLife.v gives owner_phases = [O1; O2; O3; O4; O5], so the Stop theorems above
    are about the order the source has. *)
@@ -131,6 +132,9 @@ Theorem C15_stop_order_core :
   before SExit SSnapshotCloseClients stop_ops /\ before SCloseListeners SSnapshotCloseClients stop_ops /\
   before SShutdownWebsockets SSnapshotCloseClients stop_ops /\
   before SLock SSnapshotCloseClients stop_ops /\ before SSnapshotCloseClients SUnlock stop_ops /\
+  before SExit SSnapshotCloseConnecting stop_ops /\ before SCloseListeners SSnapshotCloseConnecting stop_ops /\
+  before SShutdownWebsockets SSnapshotCloseConnecting stop_ops /\
+  before SLock SSnapshotCloseConnecting stop_ops /\ before SSnapshotCloseConnecting SUnlock stop_ops /\
   before SUnlock SWait stop_ops /\ before SWait SUnload stop_ops /\ before SUnload SOnStop stop_ops.
 Proof. exact stop_order_core. Qed.
 Print Assumptions C15_stop_order_core.
@@ -145,21 +149,38 @@ Theorem C15_stop_model_follows_order : forall a s s', In s' (step_caller a s) ->
 Proof. exact owner_follows_phases. Qed.
 Print Assumptions C15_stop_model_follows_order.
 
-(* PARTIAL (of "Stop returns after closing all connections"): the connections that were
-   registered when Stop looked are closed when it returns normally; Unload/OnStop come after that *)
-Theorem C15_stop_closes_all_partial :
+(* FULL: the connections Stop is responsible for.  When a Stop call has returned without timeout,
+   every connection that was in srv.clients or in srv.connecting when Stop listed them - registered
+   or not - is closed, and Unload / OnStop came after that; after the locked block every registered
+   connection is a listed one and none is registered once Stop has returned; no transition registers
+   a connection after exit() (registerClient refuses it) *)
+Theorem C15_stop_closes_all :
   forall expire s, sreachable expire s ->
-    registered_closed_on_return s = true /\ order_ok s = true.
-Proof. exact stop_closes_registered. Qed.
-Print Assumptions C15_stop_closes_all_partial.
+    listed_closed_on_return s = true /\ order_ok s = true /\
+    registered_is_listed s = true /\ none_registered_on_return s = true /\
+    (forall s', In s' (snext s) -> no_late_registration s s' = true).
+Proof. exact stop_closes_all. Qed.
+Print Assumptions C15_stop_closes_all.
 
-(* FULL statement "Stop returns after closing all connections": false - a connection that has
-   not completed CONNECT when Stop takes its snapshot survives (and can still register) *)
-Theorem C15_stop_closes_all_refuted :
-  exists s, sreachable false s /\ returned s = true /\ ctx s = false /\ all_closed_on_return s = false
-            /\ kf_unregistered_survives s = true.
-Proof. exact stop_closes_all_refuted. Qed.
-Print Assumptions C15_stop_closes_all_refuted.
+(* the strongest true form of "Stop leaves no connection behind": when a Stop call has returned
+   without timeout every LISTED connection is closed and was waited for, and every other connection
+   is gone, not yet recorded (addConnecting will close it: 9fa9d46) or closed by addConnecting and
+   winding down; once the locked block has run NO connection is served, and no transition starts
+   serving a connection after exit() *)
+Theorem C15_stop_all_closed :
+  forall expire s, sreachable expire s ->
+    listed_closed_on_return s = true /\ all_closed_or_unserved s = true /\
+    none_served_after_snapshot s = true /\
+    (forall s', In s' (snext s) -> no_late_service s s' = true).
+Proof. exact stop_all_closed. Qed.
+Print Assumptions C15_stop_all_closed.
+
+(* no connection stays open for ever: every maximal run is finite and ends with every Stop call
+   returned and every accepted connection closed *)
+Theorem C15_stop_no_connection_left :
+  forall expire s, sreachable expire s -> ends_in snext (fun s => all_over s = true) s.
+Proof. exact stop_all_over. Qed.
+Print Assumptions C15_stop_no_connection_left.
 
 (* ---------------------------------------------------------------- non-vacuity *)
 
@@ -187,8 +208,15 @@ Example C15_former_blocked_states_reachable :
   (exists s, ConnLifeP.reachable s /\ pH s = H3q /\ outN s = cap /\ latch s = 0 /\ pW s = W2 /\ next s <> []).
 Proof. exact former_blocked_states_reachable. Qed.
 
+(* honest remainder: Stop does not WAIT for a connection recorded after its locked block (it is closed
+   by addConnecting and never served; its goroutines end on their own right after Stop) *)
+Example C15_stop_does_not_wait_for_late_recorded :
+  exists s, sreachable false s /\ returned s = true /\ ctx s = false /\ all_closed_on_return s = false
+            /\ late_recorded_not_waited_for s = true.
+Proof. exact stop_does_not_wait_for_late_recorded. Qed.
+
 Example C15_stop_clean_run :
-  exists s, sreachable false s /\ both_returned s = true /\ unl s = 1 /\ ons s = 1 /\ k1 s = 3 /\ k2 s = 3.
+  exists s, sreachable false s /\ both_returned s = true /\ unl s = 1 /\ ons s = 1 /\ k1 s = KD /\ k2 s = KD.
 Proof. exact stop_clean_run_exists. Qed.
 
 (* the documented force exit: with an expiring context Stop may return ctx.Err() without Unload / OnStop *)
